@@ -2,7 +2,7 @@
    Statements only; proofs are in Valid/Normalize_proofs.v, the model in Valid/Normalize.v.
    udigit / uspace / src_* come from Generated/C13_gen.v, regenerated from the interpreter and the source on every run. *)
 From Coq Require Import String Lia.
-From EdxmlVerif Require Import Base.Prelude Valid.Gate Valid.Normalize Valid.Normalize_proofs Generated.C13_gen.
+From EdxmlVerif Require Import Base.Prelude Valid.Gate Valid.Normalize Valid.Normalize_proofs Valid.Decimal_idem Valid.Gate_int Valid.Int_link Generated.C13_gen.
 Local Open Scope Z_scope.
 
 (* T1: what the current source says, against what the model implements *)
@@ -102,6 +102,31 @@ Example C13_decimal_example :
   norm_decimal udigit uspace repaired 2 (PDec false 1005 (-3)) = Ok (s2l "1.00").
 Proof. repeat split; vm_compute; reflexivity. Qed.
 
+(* Decimal(text) reads the normaliser's own fixed point output back exactly, for every value and every number of fractional digits,
+   hence normalising a normalised decimal changes nothing (facts about the interpreter tables: "." is neither a digit nor white space) *)
+Lemma C13_dot_facts : udigit 46 = None /\ uspace 46 = false.
+Proof. split; vm_compute; reflexivity. Qed.
+Print Assumptions C13_dot_facts.
+
+Theorem C13_decimal_reads_its_output : forall neg m p, 0 <= m -> (1 <= p)%nat ->
+  dec_text udigit uspace (fmt_fixed neg m p) = Some (NFin neg m (- Z.of_nat p)).
+Proof. exact (dec_text_fixed udigit uspace tab1 (proj1 C13_dot_facts) tab2 tab3 (proj2 C13_dot_facts)). Qed.
+Print Assumptions C13_decimal_reads_its_output.
+
+Theorem C13_decimal_idempotent : forall v neg c e p s, (1 <= p <= 5000)%nat -> 0 <= c ->
+  dec_of_val udigit uspace v = Some (Some (DFin neg c e)) ->
+  norm_decimal udigit uspace repaired p v = Ok s ->
+  norm_decimal udigit uspace repaired p (PStr s) = Ok s.
+Proof. exact (norm_decimal_idempotent udigit uspace tab1 (proj1 C13_dot_facts) tab2 tab3 (proj2 C13_dot_facts)). Qed.
+Print Assumptions C13_decimal_idempotent.
+
+Example C13_decimal_idempotent_example :
+  norm_decimal udigit uspace repaired 2 (PStr (s2l " -1_0.005e1 ")) = Ok (s2l "-100.05") /\
+  norm_decimal udigit uspace repaired 2 (PStr (s2l "-100.05")) = Ok (s2l "-100.05") /\
+  dec_of_val udigit uspace (PStr (s2l " -1_0.005e1 ")) = Some (Some (DFin true 10005 (-2))).
+Proof. repeat split; vm_compute; reflexivity. Qed.
+
+
 (* rounding used by every float / decimal formatting *)
 Theorem C13_rounding_nearest : forall n d, 0 <= n -> 0 < d -> 2 * Z.abs (n - round_he n d * d) <= d.
 Proof. exact round_he_bound. Qed.
@@ -128,3 +153,17 @@ Example C13_datetime_example :
   norm_datetime true 2020 1 1 0 30 0 0 (Some 3600) = Ok (s2l "2019-12-31T23:30:00.000000Z") /\
   norm_datetime true 1 1 1 0 0 0 0 (Some 7200) = Reject.
 Proof. split; vm_compute; reflexivity. Qed.
+
+(* C13 meets C03: the rendering of an integer is the canonical numeral (no sign for zero, no leading zeros), therefore the validation
+   gate for an integer data type accepts a normalised integer exactly when it lies in the range and facets of the type - for EVERY integer
+   (premises about the Unicode table as in C03: ASCII digits are Nd, Nd characters are no white space) *)
+Theorem C13_integer_rendering_is_canonical : forall z, canon_int (render_Z z) = true.
+Proof. exact render_Z_canon. Qed.
+Print Assumptions C13_integer_rendering_is_canonical.
+
+Theorem C13_normalised_integer_accepted_iff_in_range : forall uprop,
+  (forall c, is_digit c = true -> uprop ND c = true) -> (forall c, uprop ND c = true -> is_ws c = false) ->
+  forall t mn mx z, (exists lo hi, int_range t = Some (lo, hi)) ->
+  gate_data uprop (sint_spec t mn mx) (render_Z z) = facet_range t mn mx z.
+Proof. exact normalised_integer_gate. Qed.
+Print Assumptions C13_normalised_integer_accepted_iff_in_range.
